@@ -43,6 +43,17 @@ Resolve(arg) ==
                   ELSE [ok |-> TRUE, file |-> core \o ".ra", id |-> id, k |-> Num(ks)]
 
 (***************************************************************************)
+(* `regex format ARG': a rule argument names an assembly file, every other  *)
+(* name a file of the include directory.  ".ra" is appended only to a name  *)
+(* without any extension - an argument with a foreign extension is never    *)
+(* bent into a rule file.                                                   *)
+(***************************************************************************)
+HasExt(arg) == \E i \in 1..Len(arg) : At(arg, i) = "."
+FormatTarget(arg) ==
+    LET a == IF HasExt(arg) THEN arg ELSE arg \o ".ra" IN
+    IF Resolve(a).ok THEN "regex-assembly/" \o Resolve(a).file ELSE "regex-assembly/include/" \o a
+
+(***************************************************************************)
 (* Root search.                                                            *)
 (***************************************************************************)
 IsPrefixDir(a, b) == Len(a) <= Len(b) /\ SubSeq(b, 1, Len(a)) = a
